@@ -49,3 +49,23 @@ void h_thread_migrate_cpu(void)
 	if (r != 0 && !w_has_cpu) REACH("migrate_cpu refused: no cpu");
 	if (r != 0 && w_has_cpu) REACH("migrate_cpu refused by the channel");
 }
+
+/* ---- base case of the invariant: a thread starts not started, with no CPU ---- */
+int w_init_tid;
+WITNESS(thread_init_begin);
+int c_thread_init_begin(struct thread *thread, int tid)
+__CPROVER_requires(__CPROVER_is_fresh(thread, sizeof(*thread)) && DIAG_PRE)
+__CPROVER_requires(WBIND(thread_init_begin, w_init_tid == tid))
+__CPROVER_assigns(__CPROVER_object_whole(thread), DIAG_FRAME)
+__CPROVER_ensures(RET == 0 || RET == -1)
+__CPROVER_ensures(thread->state == TH_ST_UNKNOWN && thread->cpu == NULL && thread->is_running == 0 &&
+	thread->is_active == 0 && thread->tid == tid && TH_WF(thread))
+;
+void h_thread_init_begin(void)
+{
+	struct thread *thread; int tid;
+	WITNESS_ON(thread_init_begin); WITNESS_OFF(chan_set);
+	int r = thread_init_begin(thread, tid);
+	if (r == 0) REACH("thread_init_begin succeeds");
+	if (r != 0) REACH("thread_init_begin fails (id too long)");
+}
